@@ -95,7 +95,7 @@ class Ctx:
 
     # -- X10: statement / block lifting -----------------------------------------------------------------
     def lifted(self, rel, path, key, props, anchor, name, params, ret_ty='', ret=None, spec='', body_prefix='', rewrites=(),
-               kind='stmt', is_async=False, transforms=(), tail='',
+               kind='stmt', is_async=False, transforms=(), tail='', inserts=(),
                prose='lifted block verifies: no panic and every callee precondition holds'):
         """extract the statement (kind='stmt': from `anchor` to the `;` closing it) or the block (kind='block': the
         `{...}` following `anchor`) out of fn `path` and wrap it as a function with the declared parameters"""
@@ -149,6 +149,12 @@ class Ctx:
             e.rewrite(*rw) if isinstance(rw, tuple) else e.rewrite(**rw)
         for tr in transforms:
             tr(e)
+        for ins in inserts:
+            (rule, anc, txt, where, optional) = ins
+            if optional and anc not in e.text:
+                self.note('%s: optional insertion anchor %r not present: the obligation attached to it does not apply' % (key, anc))
+                continue
+            e.insert_before(rule, anc, txt) if where == 'before' else e.insert_after(rule, anc, txt)
         body = e.text
         sig = 'pub %sfn %s(%s)' % ('async ' if is_async else '', name, params)
         if ret_ty:
